@@ -117,8 +117,11 @@ JudgeOp1(e, Fr, Gr) ==
          ELSE [Plain(e.vcells = ColOf(R, e.a.col).cells) EXCEPT !.newvd = <<e.vdig>>]
     [] OTHER -> JudgeIO(e, Fr, Gr)
 
+\* (ambjudge = 1: the scenario asks for the step to be judged nevertheless - the witnesses of finding D21:
+\* Distinct / GroupBy by such a column must go by the strings like everywhere else, C05 / C04)
 JudgeOp(e, Fr, Gr) ==
-  IF e.recv >= 0 /\ e.op \notin AmbSafeOps /\ AmbFrame(Fr[e.recv + 1]) THEN AmbRes(e) ELSE JudgeOp1(e, Fr, Gr)
+  IF e.recv >= 0 /\ e.op \notin AmbSafeOps /\ AmbFrame(Fr[e.recv + 1]) /\ ~("ambjudge" \in DOMAIN e /\ e.ambjudge = 1)
+  THEN AmbRes(e) ELSE JudgeOp1(e, Fr, Gr)
 
 Judge(e, Fr, Gr) == LET j == JudgeOp(e, Fr, Gr) IN [j EXCEPT !.ok = @ /\ CallsOK(e, Fr, Gr)]
 =============================================================================
